@@ -68,12 +68,15 @@ class Scenario:
     the scenario proper then starts from whatever that child left behind (its
     left-over temporary file in particular): the crash-leftover sequence."""
 
-    def __init__(self, name, writer, mode, sizes, tmp, pre=None, faults=None):
+    def __init__(self, name, writer, mode, sizes, tmp, pre=None, faults=None, serve=None):
         self.name, self.writer, self.mode, self.sizes, self.tmp = name, writer, mode, sizes, tmp
         self.pre = pre
         # faults: per save (parallel to the saves, i.e. to sizes without the
         # set-up entry of the leases writer) the failure injected into it
         self.faults = faults
+        # serve (filter writer): per save how the list is offered: "" / "length"
+        # (Content-Length announced), "chunked", "file" (local source file)
+        self.serve = serve
         self.events = None     # model events (dicts)
         self.src = None        # per event: strace line (str) or marker
         self.rows = None       # harness result rows
@@ -85,6 +88,8 @@ class Scenario:
             d["pre"] = self.pre
         if self.faults is not None:
             d["faults"] = self.faults
+        if self.serve is not None:
+            d["serve"] = self.serve
         return d
 
 
@@ -141,7 +146,8 @@ def run_child(ctx, bins, sc, tag=""):
     def spec(mode, sizes, resume, gen, faults=None):
         return json.dumps({"mode": mode, "writer": sc.writer, "root": root, "out": out, "sizes": sizes,
                            "seed": ctx.seed, "maxreads": 50000 if ctx.quick else 150000,
-                           "resume": resume, "gen": gen, "faults": faults or []})
+                           "resume": resume, "gen": gen, "faults": faults or [],
+                           "serve": sc.serve or []})
 
     pre_files, pre_dirs = [], []
     try:
@@ -273,6 +279,7 @@ def parse_strace(path):
                 if name == "close!":
                     continue
                 rest = "%s(%s%s" % (name, head, r.group(2))
+                line = "%d %s" % (tid, rest)
             c = _call_re.match(rest)
             if not c:
                 if "exited with" in rest or "<unfinished" in rest:
@@ -806,6 +813,11 @@ def plan(ctx):
         scs.append(Scenario("leases-mig", "leases-migrate", "trace", [j(0, 100000)], rng.choice(["otherfs", "samefs"])))
         scs += leftovers("", ["otherfs", "samefs"])
         scs += faulty("", rng.choice(["otherfs", "samefs"]), 5)
+        # The size dimension up to "tens of megabytes", with the size announced
+        # (Content-Length), taken from a local source file, and not announced.
+        scs.append(Scenario("filter-big", "filter", "trace",
+                            [j(20, 4000), 17 * MiB + j(0, 99999), 33 * MiB + j(0, 99999), 18 * MiB + j(0, 99999), j(20, 4000)],
+                            rng.choice(["otherfs", "samefs"]), serve=["", "length", "file", "chunked", "file"]))
         npoll = 200
     else:
         scs.append(Scenario("filter-a", "filter", "trace",
@@ -833,6 +845,10 @@ def plan(ctx):
         scs.append(Scenario("filter-c", "filter", "trace", [32 * MiB, j(1, 16) * MiB, -32 * MiB, 33 * MiB, 0, 1], "samefs"))
         scs += leftovers("-a", ["otherfs"]) + leftovers("-b", ["samefs"])
         scs += faulty("-a", "otherfs", 10) + faulty("-b", "samefs", 10)
+        scs.append(Scenario("filter-big", "filter", "trace",
+                            [j(20, 4000), 17 * MiB + j(0, 99999), 33 * MiB + j(0, 99999), 18 * MiB + j(0, 99999),
+                             j(20, 4000), j(17, 40) * MiB, fail(1, 17 * MiB, 24 * MiB), j(17, 40) * MiB, 16 * MiB, 16 * MiB + 1],
+                            "otherfs", serve=["", "length", "file", "chunked", "file", "length", "", "file", "length", "length"]))
         npoll = 400
     scs.append(Scenario("poll-filter", "filter", "poll",
                         [j(20, 300000) * (-1 if i % 9 == 5 else 1) for i in range(npoll)], "otherfs",
@@ -841,6 +857,22 @@ def plan(ctx):
                         faults=poll_faults(npoll)))
     scs.append(Scenario("poll-leases", "leases", "poll", [j(4000, 100000)] + [1] * npoll, "otherfs",
                         faults=poll_faults(npoll)))
+    # How the filter lists are offered: anything above 16 MiB in turn with an
+    # announced size, from a local file, chunked; the rest at random.
+    turn = 0
+    for sc in scs:
+        if sc.writer != "filter":
+            continue
+        if sc.mode == "poll":
+            sc.sizes[2] = 17 * MiB + j(0, 99999)
+        if sc.serve is None:
+            sc.serve = []
+            for x in sc.sizes:
+                if abs(x) > 16 * MiB:
+                    sc.serve.append(["length", "file", "chunked"][turn % 3])
+                    turn += 1
+                else:
+                    sc.serve.append(rng.choice(["", "length", "chunked", "file"]))
     return scs
 
 
@@ -944,7 +976,7 @@ def run(ctx):
         bad_save = sc.info["ineffective"]
         if not firsts and not bad_save:
             continue
-        again = Scenario(sc.name, sc.writer, sc.mode, sc.sizes, sc.tmp, sc.pre, sc.faults)
+        again = Scenario(sc.name, sc.writer, sc.mode, sc.sizes, sc.tmp, sc.pre, sc.faults, sc.serve)
         execute(ctx, bins, again, "-again")
         ares, _ = validate(ctx, [again], "again-" + sc.name)
         for i, inv in firsts:
@@ -1029,7 +1061,7 @@ def run(ctx):
 def replay(ctx, path):
     rec = json.load(open(path))["record"]
     d = rec["scenario"]
-    sc = Scenario(d["name"], d["writer"], d["mode"], d["sizes"], d["tmp"], d.get("pre"), d.get("faults"))
+    sc = Scenario(d["name"], d["writer"], d["mode"], d["sizes"], d["tmp"], d.get("pre"), d.get("faults"), d.get("serve"))
     bins = {PKG[sc.writer]: build(ctx, PKG[sc.writer])}
     execute(ctx, bins, sc)
     res, _ = validate(ctx, [sc], "replay")
